@@ -773,6 +773,9 @@ func checkLeaveFilter(c *Ctx) {
 		if ok && !(es.Kind == "index" && len(leave.Params) >= 4 && symIsParam(es.Args[0], leave.Params[3]) && fullRange(es.Args[1], func(x *Sym) bool { return symIsParam(x, leave.Params[3]) })) {
 			ok, d = false, "the kept players are not taken from the whole current player list"
 		}
+		if bad := notStartingEmpty(p, ci); ok && bad != "" {
+			ok, d = false, "the list of remaining players does not start empty ("+bad+")"
+		}
 		c.Check(ok, "R4", "leave-filter", p.InstrPos(ci), "kept iff id ∉ leaving ids, over the whole current list", "who leaves: "+d)
 	}
 	c.Min("R4", "keep-appends in the leave computation", n, 1)
